@@ -1,4 +1,5 @@
 import DeapModel.Core.Archive
+import DeapModel.Core.ArchiveHeap
 import Driver.Proto
 /-!
 Protocol handler for C08 (HallOfFame / ParetoFront).
@@ -14,6 +15,21 @@ one token per executed command: the archive state after it, or `raise` (the scri
               `never`, `always`
 * state       `<item>;…#<key>;…` with item = `genome:wvalues:<f|s>` (`f` = object id allocated by the
               archive, `s` = id of a submitted object), key = wvalues; empty lists are `-`
+
+`C08 heap <hof|pf> <maxsize> <sim> <ct> <fitName> <nums> <ev> …` runs a history of events on the *heap-level*
+archive of `Core/ArchiveHeap.lean` (members are object graphs in the heap of `Core/Heap.lean`, `insert` is
+`deepcopy`), starting from an empty heap, and answers one token per `u` / `q` event.
+
+* `<ct>`      class table as for C16: `;`-separated `kind/inst`, `inst` = `name=cls,…` or `-`
+* `<nums>`    comma list of rationals: the atom `a<i>` (0 ≤ i) denotes `nums[i]`; every other atom is a symbol
+* object      `cls/m/items/attrs`, `m` ∈ {0,1}, `items` = comma list of values or `-`, `attrs` = `name=val,…` or `-`;
+              value = `a<int>` (atom) or `c<k>` (the k-th object the caller allocated)
+* events      `a=<obj>` (the caller allocates an object), `w<k>=<obj>` (in-place modification of the caller's k-th
+              object), `u=<k>,<k>,…` / `u=-` (update with those objects), `q` (no action, answers the state)
+* similarity  as above, computed on the pure values: `eq` = equal items (recursively, attributes ignored)
+* state       `<member>;…#<key>;…`; member = identity-free term `<cls/m/items/attrs>` (attributes by ascending
+              name) in which an object of the caller prints as `c<k>`; key = `c<k>` when the key object is an
+              object of the caller, else `v:<wvalues it holds now>`; `raise` when the event raises
 -/
 namespace DriverC08
 open Proto Archive Fitness
@@ -88,7 +104,178 @@ def runScript (pf : Bool) (sim : I → I → Bool) : H → List Cmd → List Str
     | none => ["raise"]
     | some h' => showState h' :: runScript pf sim h' cs
 
+/-! ### The heap-level archive -/
+
+namespace HeapOp
+open Heap ArchiveHeap
+
+def parseKind : String → Option Kind
+  | "plain" => some .plain | "ctor" => some .ctor | "fitness" => some .fitness
+  | "cfitness" => some .cfitness | "tree" => some .tree | "nparr" => some .nparr
+  | "pyarr" => some .pyarr | "node" => some .node | _ => none
+
+def parsePair {β : Type} (p : String → Option β) (s : String) : Option (Nat × β) :=
+  match s.splitOn "=" with
+  | [k, v] => do let k ← k.toNat?; let v ← p v; pure (k, v)
+  | _ => none
+
+def parseClass (s : String) : Option ClassInfo :=
+  match s.splitOn "/" with
+  | [k, inst] => do
+      let k ← parseKind k
+      let inst ← parseList (parsePair parseNat) inst
+      pure { kind := k, dictInst := inst, dictCls := [] }
+  | _ => none
+
+def parseCt (s : String) : Option ClassTable :=
+  if s = "-" then some [] else (s.splitOn ";").mapM parseClass
+
+/-- a value of the caller: an atom, or the k-th object the caller allocated (`tbl` = their oids) -/
+def parseVal (tbl : List Oid) (s : String) : Option Val :=
+  if s.startsWith "a" then (s.drop 1).toString.toInt?.map Val.atom
+  else if s.startsWith "c" then
+    match (s.drop 1).toString.toNat? with
+    | some k => (tbl[k]?).map Val.ref
+    | none => none
+  else none
+
+def parseObj (tbl : List Oid) (s : String) : Option Obj :=
+  match s.splitOn "/" with
+  | [c, m, items, attrs] => do
+      let c ← c.toNat?
+      let m ← parseBool m
+      let items ← parseList (parseVal tbl) items
+      let attrs ← parseList (parsePair (parseVal tbl)) attrs
+      pure { cls := c, items := items, attrs := attrs, mutable := m }
+  | _ => none
+
+def insertAttr (p : Name × Val) : List (Name × Val) → List (Name × Val)
+  | [] => [p]
+  | q :: r => if p.1 < q.1 then p :: q :: r else if p.1 = q.1 then q :: r else q :: insertAttr p r
+
+def sortAttrs (l : List (Name × Val)) : List (Name × Val) := l.foldr insertAttr []
+
+def indexOf (x : Oid) : List Oid → Nat → Option Nat
+  | [], _ => none
+  | y :: r, i => if y = x then some i else indexOf x r (i + 1)
+
+/-- identity-free term of a value; objects of the caller print as `c<k>` -/
+def dump (objs : Oid → Option Obj) (tbl : List Oid) : Nat → Val → String
+  | _, .atom a => "a" ++ toString a
+  | 0, .ref x => "deep" ++ toString x
+  | f + 1, .ref x =>
+    match indexOf x tbl 0 with
+    | some k => "c" ++ toString k
+    | none =>
+      match objs x with
+      | none => "u" ++ toString x
+      | some o =>
+        "<" ++ toString o.cls ++ "/" ++ showBool o.mutable ++ "/" ++ showList (dump objs tbl f) o.items ++ "/" ++
+          showList (fun (p : Name × Val) => toString p.1 ++ "=" ++ dump objs tbl f p.2) (sortAttrs o.attrs) ++ ">"
+
+/-- a key: `c<k>` when the key object is an object of the caller, else the `wvalues` it holds now -/
+def showKey (hs : HState) (tbl : List Oid) (k : Oid) : String :=
+  match indexOf k tbl 0 with
+  | some c => "c" ++ toString c
+  | none =>
+    match hs.objs k with
+    | some o => "v:" ++ showList (dump hs.objs tbl (hs.next + 2)) o.items
+    | none => "u" ++ toString k
+
+def showStateH (hs : HState) (tbl : List Oid) : String :=
+  (if hs.items.isEmpty then "-" else
+    ";".intercalate (hs.items.map (fun x => dump hs.objs tbl (hs.next + 2) (.ref x)))) ++ "#" ++
+  (if hs.keys.isEmpty then "-" else ";".intercalate (hs.keys.map (showKey hs tbl)))
+
+/-- the items of a pure value as a string: what `==` on list / set / dict individuals compares -/
+def pvKey : Nat → PV → String
+  | _, .atom a => "a" ++ toString a
+  | _, .bot => "?"
+  | _, .absent => "!"
+  | 0, .node _ _ _ _ => "?"
+  | f + 1, .node _ _ items _ => "[" ++ ",".intercalate (items.map (pvKey f)) ++ "]"
+
+/-- sum of the numbers in the items of a pure value (the harness' `gsum`) -/
+def pvSum (val : Int → Rat) : Nat → PV → Rat
+  | _, .atom a => val a
+  | _, .bot => 0
+  | _, .absent => 0
+  | 0, .node _ _ _ _ => 0
+  | f + 1, .node _ _ items _ => (items.map (pvSum val f)).foldl (· + ·) 0
+
+def isInt (q : Rat) : Bool := q.den == 1
+
+def parseSimH (val : Int → Rat) (d : Nat) (s : String) : Option (Ind PV Rat → Ind PV Rat → Bool) :=
+  let gs := fun (x : Ind PV Rat) => pvSum val d x.genome
+  if s = "eq" then some (fun a b => pvKey d a.genome == pvKey d b.genome)
+  else if s = "fit" then some (fun a b => Fitness.eq a.fit b.fit)
+  else if s = "never" then some (fun _ _ => false)
+  else if s = "always" then some (fun _ _ => true)
+  else if s = "lt" then some (fun a b => decide (gs a < gs b))
+  else if s.startsWith "mod" then
+    match (s.drop 3).toString.toNat? with
+    | some k => if k = 0 then none else some (fun a b => isInt ((gs a - gs b) / (k : Rat)))
+    | none => none
+  else if s.startsWith "near" then
+    match (s.drop 4).toString.toNat? with
+    | some dd => some (fun a b => decide (gs a - gs b ≤ (dd : Rat) ∧ gs b - gs a ≤ (dd : Rat)))
+    | none => none
+  else none
+
+/-- run the events; `tbl` = oids of the caller's objects in allocation order -/
+def runEvents (P : Params Rat) (pf : Bool) : HState → List Oid → List String → Option (List String)
+  | _, _, [] => some []
+  | hs, tbl, e :: es =>
+    if e = "q" then (runEvents P pf hs tbl es).map (fun r => showStateH hs tbl :: r)
+    else if e.startsWith "u=" then
+      match parseList (fun (t : String) => t.toNat?.bind (fun k => tbl[k]?)) (e.drop 2).toString with
+      | none => none
+      | some pop =>
+        match execEv P pf hs (.upd pop) with
+        | none => some ["raise"]
+        | some hs' => (runEvents P pf hs' tbl es).map (fun r => showStateH hs' tbl :: r)
+    else if e.startsWith "a=" then
+      match parseObj tbl (e.drop 2).toString with
+      | none => none
+      | some o =>
+        match execEv P pf hs (.alloc o) with
+        | none => none
+        | some hs' => runEvents P pf hs' (tbl ++ [hs.next]) es
+    else if e.startsWith "w" then
+      match (e.drop 1).toString.splitOn "=" with
+      | ks :: o1 :: orest =>
+        match ks.toNat?.bind (fun k => tbl[k]?), parseObj tbl ("=".intercalate (o1 :: orest)) with
+        | some x, some o =>
+          match execEv P pf hs (.write x o) with
+          | none => none
+          | some hs' => runEvents P pf hs' tbl es
+        | _, _ => none
+      | _ => none
+    else none
+
 def handle : List String → String
+  | kind :: ms :: ss :: cts :: fns :: nums :: evs =>
+    match (do
+      let pf ← (if kind = "hof" then some false else if kind = "pf" then some true else none)
+      let m ← parseNat ms
+      let ct ← parseCt cts
+      let fitName ← parseNat fns
+      let tblN ← parseList parseRat nums
+      let val : Int → Rat := fun a => if a < 0 then 0 else (tblN[a.toNat]?).getD 0
+      let depth := 8
+      let sim ← parseSimH val depth ss
+      if evs.isEmpty then none
+      let P : Params Rat := ⟨ct, 64, fitName, val, depth, sim⟩
+      let out ← runEvents P pf (emptyH m (fun _ => none) 0) [] evs
+      pure out) with
+    | some out => " ".intercalate out
+    | none => "bad-op"
+  | _ => "bad-op"
+
+end HeapOp
+
+def handle : List String → String
+  | "heap" :: rest => HeapOp.handle rest
   | kind :: ms :: ss :: cmds =>
     match (do
       let pf ← (if kind = "hof" then some false else if kind = "pf" then some true else none)
